@@ -17,7 +17,7 @@ ASSUMPTIONS = [
     "transport obligations run StdioClient._process_message_data on a client whose process and internal streams are recording fakes",
 ]
 STUBS = ["FakeProcess/FakeStdin", "recording internal streams"]
-OUTSIDE = ["non-ASCII digits accepted by \\\\d, years with other than 4 digits", "batches with more than 3 (quick) / 4 (thorough) members", "member contents beyond the five kinds"]
+OUTSIDE = ["non-ASCII digits accepted by \\\\d, years with other than 4 digits", "batches with more than 3 (quick) / 4 (thorough) symbolic members (larger batches: member counts from the source-constant cases <= 410 / 1100, three concrete member patterns)", "member contents beyond the five kinds"]
 
 
 def obligations(tier, ctx):
@@ -55,6 +55,15 @@ def obligations(tier, ctx):
         obs.append(Ob(name=f"history_{v1}{v2}", params=[("a", "int"), ("b", "int")],
                       pre=["0 <= a <= 4", "0 <= b <= 4"], call=f"H.history({v1}, {v2}, [a, 0], [1, b])",
                       backend="P", timeout=200, family="version change mid-connection"))
+    from symcheck import consts
+    blim = 410 if tier == "quick" else 1100
+    nb = len(consts.size_cases(blim))
+    for pat in (1, 2) if tier == "quick" else (0, 1, 2):
+        for v in (0, 2, 3):
+            if tier == "quick" and v == 0:
+                continue
+            obs.append(Ob(name=f"big_batch_v{v}_p{pat}", params=[("k", "int")], pre=[f"0 <= k < {nb}"], call=f"H.big_batch({v}, k, {pat}, {blim})", backend="P", timeout=600,
+                          family="count: batches of c-1, c, c+1 members for the integer constants c of the source"))
     from symcheck.runner import mirror
     obs += mirror(obs, r"^(transport_n[012]|single|repeat|history_03|history_03)$", "F", limit=(3 if tier == "quick" else None))
     return obs
